@@ -27,7 +27,9 @@ fn k_kind(t: &Tree<'_, [u8], u8, u8>) -> u8 {
     }
 }
 
-/// bounded(one ambiguous node, 2 x 2 alternatives); idx symbolic in [0, 4)
+/// bounded(one ambiguous node, 2 x 2 alternatives); idx symbolic in [0, 4).
+/// NOT REGISTERED: measured -- timed out at 1500 s (2 x 3 alternatives, through Forest) and at 1200 s (this reduced form):
+/// Rc<RefCell<VecDeque<Rc<..>>>> walked by map/enumerate/product adapter chains is beyond CBMC here.  Kept for the record.
 #[kani::proof]
 #[kani::unwind(6)]
 fn sppf_children_mixed_radix() {
